@@ -273,3 +273,10 @@ ghost("ListsDistinct", ["rs"], "forall(s, forall(t, implies(s != t and s in rs.s
 # every recorded portion is a positive number of seconds that fits the slot
 ghost("EntriesFit", ["rs"], "forall(s, implies(s in rs.slotTaskUsage, forall(k, 0, len(rs.slotTaskUsage[s]), "
                             "0 < rs.slotTaskUsage[s][k][1] and rs.slotTaskUsage[s][k][1] <= D(rs))))")
+
+# last slot index of the scheduling horizon: index of the project end
+ghost("PIdx", ["p", "d"], "trunc((secs(d) - secs(some(p.attributes['start']))) / p.attributes['scheduleGranularity'])")
+ghost("Upper", ["p"], "PIdx(p, some(p.attributes['end']))")
+# the project's own slot table is left alone
+ghost("PBoardSame", ["p"], "implies(p.scoreboard is not None, len(some(p.scoreboard).sb) == old(len(some(p.scoreboard).sb)) and "
+                           "forall(i, some(p.scoreboard).sb[i] == old(some(p.scoreboard).sb[i])))")
